@@ -222,6 +222,9 @@ func (e *SpecEnv) ident(name string, inOld bool) Val {
 		return Val{"false", types.Typ[types.Bool], SBool}
 	case "$alloc":
 		return Val{vc.curIn(e.st(inOld), vc.allocKey()), nil, SInt}
+	case "$tick":
+		vc.registerKey("$tick", SInt)
+		return Val{vc.curIn(e.st(inOld), "$tick"), nil, SInt}
 	}
 	if e.useLocals && inOld {
 		if pv, ok := vc.paramVals[name]; ok {
@@ -257,6 +260,16 @@ func (e *SpecEnv) ident(name string, inOld bool) Val {
 	if e.pkg != nil {
 		if o := e.pkg.Scope().Lookup(name); o != nil {
 			return e.object(o, inOld)
+		}
+	}
+	// ghost constants (any package)
+	for gk, gt := range vc.eng.specs.GhostVars {
+		if strings.HasSuffix(gk, "."+name) {
+			sub := &SpecEnv{vc: vc, vars: map[string]Val{}, cur: e.cur, old: e.old, pkg: vc.eng.pkgByName(gk[:strings.Index(gk, ".")]), witFn: e.witFn}
+			t, k := sub.specType(gt)
+			cn := "ghost$" + sanitize(gk)
+			vc.declare(cn, k)
+			return Val{cn, t, k}
 		}
 	}
 	if o := types.Universe.Lookup(name); o != nil {
